@@ -1541,7 +1541,7 @@ impl Connection {
     async fn router(
         config: HostConnectionConfig,
         stream: impl AsyncRead + AsyncWrite,
-        receiver: mpsc::Receiver<Task>,
+        mut receiver: mpsc::Receiver<Task>,
         error_sender: tokio::sync::oneshot::Sender<ConnectionError>,
         orphan_notification_receiver: mpsc::UnboundedReceiver<RequestId>,
         router_handle: Arc<RouterHandle>,
@@ -1580,7 +1580,7 @@ impl Connection {
         let w = Self::writer(
             BufWriter::with_capacity(8192, write_half),
             &handler_map,
-            receiver,
+            &mut receiver,
             write_coalescing_delay,
         );
         let o = Self::orphaner(&handler_map, orphan_notification_receiver);
@@ -1599,6 +1599,19 @@ impl Connection {
         for (_, handler) in response_handlers {
             // Ignore sending error, request was dropped
             let _ = handler.response_sender.send(Err(error.clone().into()));
+        }
+
+        // Respond with the error to the requests that were submitted but not yet taken
+        // by the writer. The channel must be closed and then read until `None`: a sender
+        // that has already reserved its slot may still push its task after the close,
+        // and a task left in the channel would keep its caller waiting for as long as
+        // the caller itself keeps the connection (and thus the channel) alive.
+        receiver.close();
+        while let Some(task) = receiver.recv().await {
+            let _ = task
+                .response_handler
+                .response_sender
+                .send(Err(error.clone().into()));
         }
 
         // If someone is listening for connection errors notify them
@@ -1693,7 +1706,7 @@ impl Connection {
     async fn writer(
         mut write_half: impl AsyncWrite + Unpin,
         handler_map: &StdMutex<ResponseHandlerMap>,
-        mut task_receiver: mpsc::Receiver<Task>,
+        task_receiver: &mut mpsc::Receiver<Task>,
         write_coalescing_delay: Option<WriteCoalescingDelay>,
     ) -> Result<(), BrokenConnectionError> {
         // When the Connection object is dropped, the sender half
